@@ -19,9 +19,17 @@ package main
 // until a later point of the stream and delays PublishDiagnostics by a few microseconds, the
 // stream is repeated many times; only race / deadlock / panic are observed.  Mode "resp":
 // every response is compared with the response of a fresh server that is fed the same stream
-// sequentially (every background task awaited before the next message): the property's
+// sequentially (every background task awaited before the next message) and with diagnostics
+// kept switched ON (the reference always gets to load and store the include tree of the current
+// text; features.diagnostics is not part of what a response may depend on): the property's
 // "response equals the response computed from the document state at the moment the request was
-// handled".  Each difference is reported with the facts the Lean guard needs.
+// handled".  Every difference is a violation (the finding `resolved-pending` that used to excuse
+// some is fixed); the facts recorded with it only serve the report.  Mode "resp" schedules come
+// from two generators: the random stream (c14GenSched) and the "window" family (c14GenWindow):
+// a document with an include directive is changed and completion / hover / definition /
+// references are requested at once, before the background task of the change has run — with and
+// without diagnostics switched off, with and without a workspace (where the document is a journal
+// outside the root's include tree, the case in which a workspace server reads Server.resolved).
 
 import (
 	"bufio"
@@ -160,10 +168,15 @@ func c14GenSched(c *Ctx, mode string) c14Sched {
 	s := c14Sched{Mode: mode, Workspace: r.IntN(2) == 0, Jitter: r.Uint64()}
 	nd := 1 + r.IntN(3)
 	names := []string{"main.journal", "a.journal", "b.journal"}[:nd]
+	s.Files = []c14Doc{{Name: c14IncName, Text: c14IncText}}
 	for i, n := range names {
 		var inc []string
 		if i == 0 && nd > 1 && r.IntN(4) != 0 {
 			inc = names[1:]
+		}
+		if i > 0 && r.IntN(2) == 0 {
+			// a document with an include tree of its own (the file is on disk, never opened)
+			inc = []string{c14IncName}
 		}
 		s.Docs = append(s.Docs, c14Doc{Name: n, Text: c14Journal(r, inc)})
 	}
@@ -204,6 +217,9 @@ func c14GenSched(c *Ctx, mode string) c14Sched {
 				var inc []string
 				if d == 0 && nd > 1 && r.IntN(2) == 0 {
 					inc = names[1:]
+				}
+				if d > 0 && r.IntN(2) == 0 {
+					inc = []string{c14IncName}
 				}
 				op.T = c14Journal(r, inc)
 				cur[d] = op.T
@@ -253,6 +269,130 @@ func c14GenSched(c *Ctx, mode string) c14Sched {
 	} else {
 		s.Reps = 1
 	}
+	return s
+}
+
+// c14IncFile is on disk in every "race"/"resp" schedule; documents may include it.  Its names do
+// not occur in c14Accounts / c14Payees, so an answer computed without the included files differs.
+const c14IncName = "inc.journal"
+const c14IncText = "account assets:special\naccount expenses:shared\ncommodity 1,000.00 USD\n\n" +
+	"2023-12-01 * Zeta payee\n    expenses:shared    40.00 USD\n    assets:special\n\n" +
+	"2023-12-02 * Zeta payee\n    expenses:shared    2.00 USD\n    assets:special\n"
+
+// c14WindowText: a document whose answers depend on its include tree, and the positions at which
+// each of the four handlers that read Server.resolved gives an answer that needs the tree:
+// completion at the end of the half-typed account "assets:sp" (offers assets:special, declared in
+// the included file only), hover / references on "expenses:shared" (balance and occurrences span
+// both files), definition on "assets:special" (declared in the included file).
+func c14WindowText(r *rand.Rand, withInclude bool) (string, map[string][2]int) {
+	var sb strings.Builder
+	if withInclude {
+		sb.WriteString("include " + c14IncName + "\n")
+	}
+	sb.WriteString("\n")
+	for i, n := 0, r.IntN(3); i < n; i++ {
+		sb.WriteString(c14Tx(r))
+		sb.WriteString("\n")
+	}
+	fmt.Fprintf(&sb, "2024-01-%02d * Zeta payee\n    expenses:shared    %d.00 USD\n    assets:special\n\n", 1+r.IntN(28), 1+r.IntN(90))
+	fmt.Fprintf(&sb, "2024-02-%02d * Local %d\n    expenses:shared    5.00 USD\n    assets:sp\n", 1+r.IntN(28), r.IntN(1000))
+	text := sb.String()
+	pos := map[string][2]int{}
+	for i, line := range strings.Split(text, "\n") {
+		if line == "    assets:sp" {
+			pos["completion"] = [2]int{i, len(line)}
+		}
+		if strings.HasPrefix(line, "    expenses:shared") {
+			if _, ok := pos["hover"]; !ok {
+				pos["hover"] = [2]int{i, 8}
+				pos["references"] = [2]int{i, 10}
+			}
+		}
+		if line == "    assets:special" {
+			pos["definition"] = [2]int{i, 9}
+		}
+	}
+	return text, pos
+}
+
+var c14WindowKinds = []string{"completion", "hover", "definition", "references"}
+
+// c14GenWindow: the "request right after a change" family (mode "resp").  Document 1
+// (x.journal) includes inc.journal; document 0 (main.journal, the workspace root when there is a
+// workspace) does not include x.journal, so x.journal is answered from its own tree with or
+// without a workspace.  diagOff: diagnostics are switched off before the document is opened (the
+// background task then never loads), or — variant — in the middle of the stream.
+func c14GenWindow(c *Ctx, ws, diagOff bool) c14Sched {
+	r := c.R
+	s := c14Sched{Mode: "resp", Workspace: ws, Jitter: r.Uint64(), Reps: 1}
+	s.Files = []c14Doc{{Name: c14IncName, Text: c14IncText}}
+	s.Docs = []c14Doc{{Name: "main.journal", Text: c14Journal(r, nil)}}
+	text, pos := c14WindowText(r, true)
+	s.Docs = append(s.Docs, c14Doc{Name: "x.journal", Text: text})
+	off := map[string]any{"features": map[string]any{"diagnostics": false}}
+	on := map[string]any{"features": map[string]any{"diagnostics": true}}
+	late := diagOff && r.IntN(3) == 0
+	if diagOff && !late {
+		s.Ops = append(s.Ops, c14Op{K: "config", V: off})
+	}
+	if r.IntN(2) == 0 {
+		s.Ops = append(s.Ops, c14Op{K: "open", D: 0, T: s.Docs[0].Text})
+	}
+	s.Ops = append(s.Ops, c14Op{K: "open", D: 1, T: text})
+	ask := func(kinds []string) {
+		for _, k := range kinds {
+			if p, ok := pos[k]; ok {
+				s.Ops = append(s.Ops, c14Op{K: k, D: 1, L: p[0], C: p[1]})
+				c.Count("window.op." + k)
+			}
+		}
+	}
+	shuffled := func() []string {
+		ks := append([]string{}, c14WindowKinds...)
+		r.Shuffle(len(ks), func(i, j int) { ks[i], ks[j] = ks[j], ks[i] })
+		return ks
+	}
+	// right after the open, too: the first task may not have run either
+	ask(shuffled()[:1+r.IntN(2)])
+	rounds := 4 + r.IntN(3)
+	for n := 0; n < rounds; n++ {
+		if late && n == rounds/2 {
+			s.Ops = append(s.Ops, c14Op{K: "config", V: off})
+		}
+		if diagOff && !late && n == rounds-1 && r.IntN(2) == 0 {
+			// back on: the last round runs with live tasks again
+			s.Ops = append(s.Ops, c14Op{K: "config", V: on})
+		}
+		withInc := r.IntN(6) != 0
+		text, pos = c14WindowText(r, withInc)
+		s.Ops = append(s.Ops, c14Op{K: "change", D: 1, T: text})
+		if r.IntN(4) == 0 {
+			// a burst: the task of the first change is still in flight when the second arrives
+			text, pos = c14WindowText(r, true)
+			s.Ops = append(s.Ops, c14Op{K: "change", D: 1, T: text})
+		}
+		ks := shuffled()
+		// every kind is the FIRST request after a change in some round
+		ks[0], ks[n%4] = c14WindowKinds[n%4], ks[0]
+		seen := map[string]bool{}
+		var uniq []string
+		for _, k := range ks {
+			if !seen[k] {
+				seen[k] = true
+				uniq = append(uniq, k)
+			}
+		}
+		ask(uniq[:1+r.IntN(len(uniq))])
+		if r.IntN(3) == 0 {
+			s.Ops = append(s.Ops, c14Op{K: "yield", N: 200 + r.IntN(2000)})
+			ask(shuffled()[:2])
+		}
+		if r.IntN(5) == 0 {
+			s.Ops = append(s.Ops, c14Op{K: "save", D: 1})
+			ask(shuffled()[:1])
+		}
+	}
+	c.Count(fmt.Sprintf("window.sched.ws=%v.diagoff=%v", ws, diagOff))
 	return s
 }
 
@@ -529,6 +669,14 @@ func genC14(c *Ctx) {
 	for i := 0; i < nResp; i++ {
 		scheds = append(scheds, c14GenSched(c, "resp"))
 	}
+	// request right after a change, document with includes: x {workspace, none} x {diagnostics off, on}
+	for rep := 0; rep < c.N(6, 30); rep++ {
+		for _, ws := range []bool{false, true} {
+			for _, off := range []bool{false, true} {
+				scheds = append(scheds, c14GenWindow(c, ws, off))
+			}
+		}
+	}
 	// shared included file with k = 0..9 parse errors x the three include-level errors
 	for rep := 0; rep < c.N(1, 4); rep++ {
 		for k := 0; k <= 9; k++ {
@@ -766,6 +914,21 @@ func c14Wait(what string) {
 	}
 }
 
+// c14DiagnosticsOn: the payload with features.diagnostics forced to true (a private copy).  The
+// reference server of mode "resp" is fed these: whether the client wants diagnostics published
+// is not part of the state a completion / hover / definition / references answer is a function of.
+func c14DiagnosticsOn(v map[string]any) map[string]any {
+	b, _ := json.Marshal(v)
+	var out map[string]any
+	json.Unmarshal(b, &out)
+	if f, ok := out["features"].(map[string]any); ok {
+		if _, has := f["diagnostics"]; has {
+			f["diagnostics"] = true
+		}
+	}
+	return out
+}
+
 type c14Resp struct {
 	op       int
 	kind     string
@@ -776,6 +939,7 @@ type c14Resp struct {
 	diagOff  bool
 	inc      bool
 	ws       bool
+	window   bool // the handler needs the document's own include tree and none was stored when the request arrived
 }
 
 var c14ReadsResolved = map[string]bool{"completion": true, "hover": true, "definition": true, "references": true}
@@ -788,7 +952,7 @@ type c14Run struct {
 	started  map[protocol.DocumentURI]int
 	overlap  map[protocol.DocumentURI]bool
 	opened   map[int]bool
-	diagOff  bool // a configuration with features.diagnostics=false has been sent: tasks may end without storing
+	diagOff  bool // features.diagnostics=false is in force: tasks end without loading
 	resps    []c14Resp
 	panicked string
 }
@@ -818,6 +982,16 @@ func (r *c14Run) request(i int, kind string, d, l, col int) {
 	if text, ok := r.srv.GetDocument(uri); ok {
 		inc = strings.HasPrefix(text, "include ") || strings.Contains(text, "\ninclude ")
 	}
+	// does this handler go to the document's own tree, and is there one?
+	own := false
+	if c14ReadsResolved[kind] {
+		if kind == "completion" {
+			own = !ws
+		} else {
+			own = !ws || !r.srv.Workspace().Contains(strings.TrimPrefix(string(uri), "file://"))
+		}
+	}
+	window := own && inc && r.opened[d] && r.srv.GetResolved(uri) == nil
 	var body string
 	switch kind {
 	case "completion":
@@ -877,7 +1051,7 @@ func (r *c14Run) request(i int, kind string, d, l, col int) {
 	case "folding":
 		body = c14Canon(r.srv.FoldingRanges(ctx, &protocol.FoldingRangeParams{TextDocumentPositionParams: protocol.TextDocumentPositionParams{TextDocument: td}}))
 	}
-	r.resps = append(r.resps, c14Resp{op: i, kind: kind, doc: d, body: body, inflight: inflight, overlap: r.overlap[uri], diagOff: r.diagOff, inc: inc, ws: ws})
+	r.resps = append(r.resps, c14Resp{op: i, kind: kind, doc: d, body: body, inflight: inflight, overlap: r.overlap[uri], diagOff: r.diagOff, inc: inc, ws: ws, window: window})
 }
 
 // noteTask counts the tasks started per document (finished ones are counted by c14YieldHook);
@@ -899,7 +1073,11 @@ func c14RunOnce(s *c14Sched, dir string, sequential bool, jitter uint64) (run *c
 	cl.payloads = append(cl.payloads, map[string]any{})
 	for _, op := range s.Ops {
 		if op.K == "config" {
-			cl.payloads = append(cl.payloads, op.V)
+			v := op.V
+			if sequential && s.Mode == "resp" {
+				v = c14DiagnosticsOn(v)
+			}
+			cl.payloads = append(cl.payloads, v)
 		}
 	}
 	if !sequential {
@@ -969,8 +1147,8 @@ func c14RunOnce(s *c14Sched, dir string, sequential bool, jitter uint64) (run *c
 			settle()
 		case "config":
 			if f, ok := op.V["features"].(map[string]any); ok {
-				if d, ok := f["diagnostics"].(bool); ok && !d {
-					run.diagOff = true
+				if d, ok := f["diagnostics"].(bool); ok {
+					run.diagOff = !d
 				}
 			}
 			srv.DidChangeConfiguration(ctx, &protocol.DidChangeConfigurationParams{})
@@ -1099,11 +1277,15 @@ func c14RunSched(c *Ctx, s *c14Sched, idx int) map[string]any {
 			if got.inflight > 0 || got.overlap {
 				c.Count("resp.with-task-in-flight")
 			}
+			if got.window {
+				// the window of the former finding resolved-pending: judged like every other response
+				c.Count(fmt.Sprintf("window.hit.%s.ws=%v.diagoff=%v", got.kind, run.srv.Workspace() != nil, got.diagOff))
+			}
 			if got.body == seq1.resps[j].body {
 				continue
 			}
 			c.Count("resp.diff-" + got.kind)
-			diffs = append(diffs, map[string]any{"i": got.op, "k": got.kind, "d": got.doc, "ws": got.ws, "inflight": got.inflight, "overlap": got.overlap, "diagoff": got.diagOff, "inc": got.inc,
+			diffs = append(diffs, map[string]any{"i": got.op, "k": got.kind, "d": got.doc, "ws": got.ws, "inflight": got.inflight, "overlap": got.overlap, "diagoff": got.diagOff, "inc": got.inc, "window": got.window,
 				"got": clip(got.body, 400), "want": clip(seq1.resps[j].body, 400)})
 		}
 	}
